@@ -133,6 +133,15 @@ Definition k_fe_missing (q : osp) (o : json) (r : result) : bool :=   (* fieldsE
                                 (leaves (o_probes q)))
         (negb (fst r)).
 
+(** a selected probe passes iff the status is up to date and each of its probes passes (the
+    success FLAG, whatever the messages are) ... *)
+Definition k_passes (tbl : cel_table) (q : osp) (o : json) (r : result) : bool :=
+  implb (selects q o) (Bool.eqb (fst r) (passes_one (ce_of tbl) q o)).
+(** ... and it reports as many failures as it has failing probes (the NUMBER of messages, whatever
+    their text is: empty, blank and duplicate messages count) *)
+Definition k_count (tbl : cel_table) (q : osp) (o : json) (r : result) : bool :=
+  implb (selects q o) (Nat.eqb (List.length (snd r)) (List.length (messages_one (ce_of tbl) q o))).
+
 Definition per_all (k : osp -> json -> result -> bool) (qs : list osp) (o : json) (per : list result) : bool :=
   forallb (fun qr => k (fst qr) o (snd qr)) (combine qs per).
 
@@ -156,12 +165,14 @@ Fixpoint index_concat (i : N) (per : list result) : list (N * reason) :=
     4 stale status.observedGeneration never passes (selected object)
     5 stale per-condition observedGeneration never passes (selected object, probed type)
     6 fieldsEqual fails on missing fields (selected object)
-    7 probing leaves the object unchanged *)
+    7 probing leaves the object unchanged
+    8 a selected probe passes iff its status is up to date and all its probes pass (success flag)
+    9 a selected probe reports as many failures as it has failing probes (number of messages) *)
 Definition clauses (c : case) : list bool :=
   let '(qs, o, tbl, ob) := c in
   match ob with
   | OParseErr _ _ =>
-      [negb (cel_all_ok tbl qs && forallb selector_ok qs); true; true; true; true; true; true; true]
+      [negb (cel_all_ok tbl qs && forallb selector_ok qs); true; true; true; true; true; true; true; true; true]
   | ORun success fails per pure =>
       [cel_all_ok tbl qs;
        Nat.eqb (List.length per) (List.length qs) && Bool.eqb success (forallb fst per);
@@ -170,7 +181,9 @@ Definition clauses (c : case) : list bool :=
        per_all k_stale_status qs o per;
        per_all k_stale_cond qs o per;
        per_all k_fe_missing qs o per;
-       pure]
+       pure;
+       per_all (k_passes tbl) qs o per;
+       per_all (k_count tbl) qs o per]
   end.
 
 Definition monitor (c : case) : bool := forallb (fun b : bool => b) (clauses c).
@@ -264,6 +277,12 @@ Section Sound.
     cbn. now rewrite (cond_probe_stale o t s cs Ec Est).
   Qed.
 
+  Lemma k_passes_group q o : k_passes tbl q o (group_result ce q o) = true.
+  Proof. unfold k_passes, group_result. destruct (selects q o); [cbn; apply eqb_reflx|reflexivity]. Qed.
+
+  Lemma k_count_group q o : k_count tbl q o (group_result ce q o) = true.
+  Proof. unfold k_count, group_result. destruct (selects q o); [cbn; apply Nat.eqb_refl|reflexivity]. Qed.
+
   Lemma k_fe_missing_group q o : k_fe_missing q o (group_result ce q o) = true.
   Proof.
     unfold k_fe_missing, group_result. destruct (selects q o); [|reflexivity]. cbn [andb fst].
@@ -303,11 +322,105 @@ Section Sound.
       rewrite (per_model_groups _ _ o HF), (cel_all_ok_groups _ _ HF), Hpo. cbn [fst snd forallb andb].
       rewrite map_length, Nat.eqb_refl, forallb_fst_groups, eqb_reflx.
       rewrite !per_all_groups; auto using k_iff_group, k_unselected_group, k_stale_status_group,
-        k_stale_cond_group, k_fe_missing_group.
+        k_stale_cond_group, k_fe_missing_group, k_passes_group, k_count_group.
       cbn [andb]. rewrite !andb_true_r.
       apply (list_eqb_spec fail_eqb fail_eqb_spec). apply failures_index_concat.
   Qed.
 End Sound.
+
+(** ** The callers: one pass of the phase reconciler, and histories of passes *)
+
+(** An item: an object of the phase as it was probed (None: the pass did not find it), the CEL
+    oracle table for this object, and whether the implementation recorded it in
+    ProbingResult.FailedProbes. *)
+Definition item : Type := option json * cel_table * bool.
+
+(** One observed pass: the availabilityProbes of the ObjectSet that was reconciled, the objects of
+    its phase, the number of entries of ProbingResult.FailedProbes, and whether the result was zero
+    (= the ObjectSet is reported Available). *)
+Definition pass_obs : Type := list osp * list item * N * bool.
+
+Definition count_true (l : list bool) : N := N.of_nat (List.length (filter (fun b : bool => b) l)).
+
+(** the model: Parse the probes, run the prober on the object, record iff the flag is false *)
+Definition model_failed (qs : list osp) (o : option json) (tbl : cel_table) : option bool :=
+  match verdict (cc_of tbl) (ce_of tbl) (qs, [o]) with
+  | inr [b] => Some b
+  | _ => None
+  end.
+
+Definition model_pass (qs : list osp) (objs : list (option json * cel_table)) : option pass_obs :=
+  let ms := map (fun ot => model_failed qs (fst ot) (snd ot)) objs in
+  if forallb (fun m : option bool => match m with Some _ => true | None => false end) ms then
+    let fl := map (fun m : option bool => match m with Some b => b | None => false end) ms in
+    Some (qs, map (fun otf => (fst (fst otf), snd (fst otf), snd otf)) (combine objs fl), count_true fl,
+          result_is_zero fl)
+  else None.
+
+Definition agree_pass (c : pass_obs) : bool :=
+  let '(qs, items, n, zero) := c in
+  let ms := map (fun it : item => model_failed qs (fst (fst it)) (snd (fst it))) items in
+  let fl := map (fun m : option bool => match m with Some b => b | None => false end) ms in
+  forallb (fun m : option bool => match m with Some _ => true | None => false end) ms
+  && list_eqb Bool.eqb fl (map (fun it : item => snd it) items)
+  && N.eqb n (count_true fl)
+  && Bool.eqb zero (result_is_zero fl).
+
+(** the property, on the observation only: an object is recorded as failed iff some probe that
+    selects it does not pass (reference reading, success flags only); every failed object is
+    counted; the result is zero iff nothing failed. About objects the pass did not find the
+    property says nothing: the observed flag is taken as it is. *)
+Definition ref_failed (qs : list osp) (it : item) : bool :=
+  match fst (fst it) with
+  | Some o => existsb (fun q => selects q o && negb (passes_one (ce_of (snd (fst it))) q o)) qs
+  | None => snd it
+  end.
+
+Definition pass_clauses (c : pass_obs) : list bool :=
+  let '(qs, items, n, zero) := c in
+  let ex := map (ref_failed qs) items in
+  [list_eqb Bool.eqb (map (fun it : item => snd it) items) ex;
+   N.eqb n (count_true ex);
+   Bool.eqb zero (result_is_zero ex)].
+
+Definition monitor_pass (c : pass_obs) : bool := forallb (fun b : bool => b) (pass_clauses c).
+
+Definition judge_pass (c : pass_obs) : bool * bool * list bool := (agree_pass c, monitor_pass c, pass_clauses c).
+
+(** A history: the passes of ONE long-lived controller, in order. Every pass is judged by the
+    probes of the ObjectSet it reconciled and the objects it found, nothing else
+    (ProbeProofs.history_independent). *)
+Definition judge_history (h : list pass_obs) : bool * bool * list bool :=
+  (forallb agree_pass h, forallb monitor_pass h,
+   [forallb (fun c => nth 0 (pass_clauses c) true) h;
+    forallb (fun c => nth 1 (pass_clauses c) true) h;
+    forallb (fun c => nth 2 (pass_clauses c) true) h]).
+
+Lemma model_failed_ref qs o tbl b : model_failed qs o tbl = Some b -> b = ref_failed qs (o, tbl, b).
+Proof.
+  unfold model_failed, verdict, ref_failed. cbn [fst snd].
+  destruct (parse (cc_of tbl) (ce_of tbl) qs) as [e|p] eqn:Ep; [discriminate|].
+  rewrite (recorded_iff_fails _ _ _ _ _ Ep). cbn. intros H. injection H as <-. now destruct o.
+Qed.
+
+Lemma bool_list_eqb_refl l : list_eqb Bool.eqb l l = true.
+Proof. induction l as [|b l IH]; cbn; [reflexivity|]. now rewrite eqb_reflx, IH. Qed.
+
+(** The monitor accepts every pass of the model (whenever Parse yields a prober at all). *)
+Theorem monitor_pass_sound qs objs c : model_pass qs objs = Some c -> monitor_pass c = true.
+Proof.
+  unfold model_pass. destruct (forallb _ _) eqn:Eall; [|discriminate]. intros H. injection H as <-.
+  unfold monitor_pass, pass_clauses.
+  set (fl := map (fun m : option bool => match m with Some b => b | None => false end)
+                 (map (fun ot => model_failed qs (fst ot) (snd ot)) objs)).
+  set (items := map (fun otf => (fst (fst otf), snd (fst otf), snd otf)) (combine objs fl)).
+  assert (Hex : map (ref_failed qs) items = fl /\ map (fun it : item => snd it) items = fl).
+  { subst items fl. induction objs as [|[o tbl] objs IH]; cbn in *; [split; reflexivity|].
+    apply andb_true_iff in Eall. destruct Eall as [E1 E2]. destruct (IH E2) as [IH1 IH2]. rewrite IH1, IH2.
+    split; [|reflexivity]. f_equal.
+    destruct (model_failed qs o tbl) as [b|] eqn:Em; [|discriminate]. symmetry. now apply model_failed_ref. }
+  destruct Hex as [-> ->]. cbn. now rewrite bool_list_eqb_refl, N.eqb_refl, eqb_reflx.
+Qed.
 
 (** ** Witnesses for the non-vacuity examples in props/C17.v *)
 Definition ex_cc (_ : N) : cel_class := CelOk.
@@ -367,3 +480,8 @@ Lemma ex_monitor_rejects :
   (* the former witness of the duplicate-type defect (fixed by 9b2e4f3): passing it is rejected *)
   /\ monitor (dup_witness_probes, dup_witness_object, [], ORun true [] [(true, [])] true) = false.
 Proof. repeat split; reflexivity. Qed.
+
+Lemma ex_monitor_pass_rejects :
+  model_pass ex_probes [(Some (ex_object 2 1), ex_tbl)] = Some (ex_probes, [(Some (ex_object 2 1), ex_tbl, true)], 1%N, false)
+  /\ monitor_pass (ex_probes, [(Some (ex_object 2 1), ex_tbl, false)], 0%N, true) = false.
+Proof. split; reflexivity. Qed.
